@@ -12,7 +12,7 @@ use std::time::Instant;
 
 pub use serde_json::{json, Map, Value};
 
-pub const MAX_EXAMPLES_PER_SIGNATURE: usize = 3;
+pub const MAX_EXAMPLES_PER_SIGNATURE: usize = 12;
 pub const MAX_SAMPLES: usize = 12;
 
 pub fn verif_root() -> PathBuf {
@@ -221,6 +221,14 @@ impl Report {
             );
         }
         let replay_dir = root.join("replays").join(&self.id);
+        // replays of earlier runs of the same tier are stale once this run has finished
+        if let Ok(rd) = std::fs::read_dir(&replay_dir) {
+            for e in rd.flatten() {
+                if e.file_name().to_string_lossy().starts_with(&format!("{}-", self.tier)) {
+                    let _ = std::fs::remove_file(e.path());
+                }
+            }
+        }
         let mut violation_count: u64 = 0;
         let mut replay_paths = Vec::new();
         if !unlisted.is_empty() {
